@@ -854,6 +854,9 @@ func (db *DB) readWALPageOffsets(f *os.File) (_ map[uint32]int64, lastCommit uin
 	r := NewWALReader(f)
 	if err := r.ReadHeader(); err == io.EOF {
 		return nil, 0, nil
+	} else if perr := (*fs.PathError)(nil); errors.As(err, &perr) {
+		// The header could not be read at all: that says nothing about the WAL.
+		return nil, 0, err
 	} else if err != nil {
 		// A WAL whose header is not valid (bad magic, unsupported version) holds
 		// no frame SQLite would accept. Treat it like an empty WAL instead of
